@@ -21,7 +21,7 @@ type RStep struct {
 	Sizes []int `json:"sizes,omitempty"`
 	// Abandon: -1 read to EOF; k >= 0: stop after k bytes and move on.
 	Abandon int `json:"abandon"`
-	// Wrap: "" | bufio | readall
+	// Wrap: "" | bufio | readall | copy
 	Wrap string `json:"wrap,omitempty"`
 	// Join: number of messages joined (op join) and the terminator.
 	Join int    `json:"join,omitempty"`
@@ -267,6 +267,31 @@ func RunReadP(c *websocket.Conn, steps []RStep, max int, lens []int, extraAfter 
 			case "readall":
 				d, e = io.ReadAll(r)
 				complete = e == nil
+			case "copy":
+				// a little through Read, the rest through io.Copy (which prefers
+				// the reader's io.WriterTo if it has one)
+				var head []byte
+				if len(st.Sizes) > 0 && st.Sizes[0] > 0 && st.Sizes[0] < 64 {
+					head = make([]byte, 0, st.Sizes[0])
+					var he error
+					for len(head) < cap(head) && he == nil {
+						var k int
+						k, he = r.Read(head[len(head):cap(head)])
+						head = head[:len(head)+k]
+					}
+					if he == io.EOF {
+						d, complete = head, true
+						break
+					}
+					if he != nil {
+						d, e = head, he
+						break
+					}
+				}
+				var buf bytes.Buffer
+				_, e = io.Copy(&buf, r)
+				d = append(head, buf.Bytes()...)
+				complete = e == nil
 			default:
 				d, complete, e = readBody(rr, st)
 			}
@@ -362,7 +387,7 @@ func genReadProgram(t *rapid.T, r int, allowAbandon, allowJSON bool) []RStep {
 			if allZero {
 				st.Sizes = append(st.Sizes, 3)
 			}
-			st.Wrap = rapid.SampledFrom([]string{"", "", "", "bufio", "readall"}).Draw(t, "wrap")
+			st.Wrap = rapid.SampledFrom([]string{"", "", "", "bufio", "readall", "copy"}).Draw(t, "wrap")
 			if allowAbandon && rapid.IntRange(0, 3).Draw(t, "ab") == 0 {
 				st.Abandon = rapid.OneOf(rapid.Just(0), rapid.IntRange(0, 10), rapid.IntRange(0, 500)).Draw(t, "abandon")
 				st.Wrap = ""
